@@ -13,7 +13,12 @@ The input tensor is called "in0".  `kw` are the constructor keyword arguments
 of `tf.keras.layers.<cls>` (lists stand for tuples); `Bidirectional` carries the
 wrapped layer as {"layer": {"name","cls","kw"}, "merge_mode": ...} and
 optionally an explicit {"backward_layer": {"name","cls","kw"}} (go_backwards=True).  Merge
-layers (`Add`, `Concatenate`) have several names in "in".
+layers (`Add`, `Concatenate`, `Multiply`) have several names in "in".
+`GlobalAveragePooling2D` is generated with its constructor options keepdims
+(unset / True / False) and data_format (unset / channels_last / channels_first),
+alone in a chain and as the head of a squeeze-and-excite block
+(gap(keepdims=True) -> 1x1 Conv2D / Dense -> Multiply with the block input);
+`Flatten` and the 2-D pooling layers sometimes carry an explicit data_format.
 
 Shapes are constructed, never rejected: every generator step knows the shape of
 the tensor it extends (spatial 4..12, channels 1..4, kernel <= spatial under
@@ -45,6 +50,9 @@ ACTS = [None, "linear", "softmax", "relu", "relu", "relu", "tanh", "tanh",
         "sigmoid", "sigmoid", "hard_sigmoid", "leaky_relu"] + OTHER_ACTS
 RNN_ACTS = ["tanh", "tanh", "relu", "sigmoid", "linear", "hard_sigmoid", "elu",
             "softsign", "relu6", "leaky_relu", "swish"]
+
+DATA_FORMATS = ["channels_last", "channels_first"]
+MERGES = ("Add", "Concatenate", "Multiply")
 
 _TUPLE_KEYS = ("kernel_size", "strides", "dilation_rate", "pool_size")
 
@@ -248,8 +256,11 @@ class _Gen(object):
     self.shape = list(shape)
     self.n_target = n
     while len(self.layers) < n:
-      if (functional and self.room() >= 2 and len(self.layers) + 2 <= n and
-          self.i(0, 3) == 0):
+      if (functional and len(self.shape) == 3 and
+          len(self.layers) + 3 <= n and self.i(0, 5) == 0):
+        self.se_block(n - len(self.layers))
+      elif (functional and self.room() >= 2 and len(self.layers) + 2 <= n and
+            self.i(0, 3) == 0):
         self.branch_block(n - len(self.layers))
       else:
         self.step(preserve=None)
@@ -320,9 +331,13 @@ class _Gen(object):
     if kind == "elementwise":
       return self.elementwise(self.pick_elementwise())
     if kind == "Flatten":
-      return self.add("Flatten", "flat", {}, [h * w * c])
+      kw = {}
+      if self.i(0, 3) == 0:
+        kw["data_format"] = self.pick(DATA_FORMATS)
+      return self.add("Flatten", "flat", kw, [h * w * c])
     if kind == "GlobalAveragePooling2D":
-      return self.add("GlobalAveragePooling2D", "gap", {}, [c])
+      return self.gap(self.pick([None, None, True, True, False]),
+                      self.pick([None, None, None] + DATA_FORMATS))
     if kind in ("Conv2D", "SeparableConv2D", "DepthwiseConv2D"):
       padding = "same" if same_only else self.pick(["same", "valid"])
       kmax = 3 if padding == "same" else min(3, h, w)
@@ -363,11 +378,18 @@ class _Gen(object):
             "padding": "same", "use_bias": self.flag(),
             "activation": self.pick([None, "relu"])}
       return self.add(kind, "convt", kw, [h * sv, w * sv, f])
-    # pooling
+    # pooling; with data_format=channels_first the tensor is read as
+    # (C, H, W) = (h, w, c) and the last two axes are pooled
+    cf = (not same_only) and self.i(0, 5) == 0
+    a, b = (w, c) if cf else (h, w)
     padding = "same" if same_only else self.pick(["same", "valid"])
-    pmax = 3 if padding == "same" else min(3, h, w)
+    pmax = 3 if padding == "same" else min(3, a, b)
     p = self.i(1, pmax) if pmax < 2 else self.i(2, pmax)
     kw = {"pool_size": [p, p], "padding": padding}
+    if cf:
+      kw["data_format"] = "channels_first"
+    elif self.i(0, 4) == 0:
+      kw["data_format"] = "channels_last"     # the default, spelled out
     if same_only:
       sv = 1
       kw["strides"] = [1, 1]
@@ -378,10 +400,49 @@ class _Gen(object):
       else:
         sv = v
         kw["strides"] = [sv, sv]
-    oh = _conv_len(h, p, sv, 1, padding)
-    ow = _conv_len(w, p, sv, 1, padding)
+    oa = _conv_len(a, p, sv, 1, padding)
+    ob = _conv_len(b, p, sv, 1, padding)
     return self.add(kind, "avgp" if kind.startswith("Average") else "maxp", kw,
-                    [oh, ow, c])
+                    [h, oa, ob] if cf else [oa, ob, c])
+
+  def gap(self, keepdims, data_format):
+    """GlobalAveragePooling2D with its two constructor options: keepdims
+    (unset / True / False) and data_format (unset / channels_last /
+    channels_first).  The rank-3 shape is read as (H, W, C) or (C, H, W)."""
+    h, w, c = self.shape
+    kw = {}
+    if keepdims is not None:
+      kw["keepdims"] = keepdims
+    if data_format is not None:
+      kw["data_format"] = data_format
+    if data_format == "channels_first":
+      shape = [h, 1, 1] if keepdims else [h]
+    else:
+      shape = [1, 1, c] if keepdims else [c]
+    return self.add("GlobalAveragePooling2D", "gap", kw, shape)
+
+  def se_block(self, budget):
+    """Squeeze-and-excite: GlobalAveragePooling2D(keepdims=True) ->
+    [1x1 Conv2D squeeze] -> 1x1 Conv2D / Dense back to C channels ->
+    Multiply with the block input (broadcast over H, W).  3 or 4 layers."""
+    root, (h, w, c) = self.cur, self.shape
+    self.gap(True, self.pick([None, None, "channels_last"]))
+    if budget >= 4 and self.room() >= 4 and self.flag():
+      r = self.i(1, 2)
+      self.add("Conv2D", "conv",
+               {"filters": r, "kernel_size": [1, 1],
+                "use_bias": self.i(0, 2) != 0, "activation": "relu"},
+               [1, 1, r])
+    gate = self.pick(["sigmoid", "sigmoid", "hard_sigmoid", "relu", None])
+    if self.flag():
+      self.add("Conv2D", "conv",
+               {"filters": c, "kernel_size": [1, 1],
+                "use_bias": self.i(0, 2) != 0, "activation": gate}, [1, 1, c])
+    else:
+      self.add("Dense", "dense",
+               {"units": c, "use_bias": self.i(0, 2) != 0,
+                "activation": gate}, [1, 1, c])
+    self.add("Multiply", "mul", {}, [h, w, c], ins=[root, self.cur])
 
   # rank-2 tensors (T, C) ---------------------------------------------------
   def rnn_kw(self, cls, units, return_sequences):
